@@ -55,7 +55,77 @@ func c16Same(a, b *realLex) string {
 	return ""
 }
 
+// c16Simple round-trips definitions made by NewSimple (the other constructor):
+// the only way back from their JSON is lexer.New, which has to agree with
+// NewSimple on every symbol - also when a rule name occurs twice.
+func c16Simple(c *mon.Child) {
+	cases := [][]lexer.SimpleRule{
+		{{Name: "Ident", Pattern: `[a-z]+`}, {Name: "Op", Pattern: `[-+]`}, {Name: "Int", Pattern: `[0-9]+`}, {Name: "ws", Pattern: `\s+`}},
+		{{Name: "Op", Pattern: `[-+]`}, {Name: "Ident", Pattern: `[a-z]+`}, {Name: "Op", Pattern: `[-+]`}, {Name: "Int", Pattern: `[0-9]+`}, {Name: "ws", Pattern: `\s+`}},
+		{{Name: "A", Pattern: `a`}, {Name: "A", Pattern: `a`}, {Name: "A", Pattern: `a`}, {Name: "B", Pattern: `b`}, {Name: "C", Pattern: `[c-z ]`}},
+		{{Name: "ws", Pattern: ` +`}, {Name: "X", Pattern: `x`}, {Name: "ws", Pattern: ` +`}, {Name: "Y", Pattern: `[a-z0-9+-]`}},
+		{{Name: "Wörter", Pattern: `[a-zé]+`}, {Name: "", Pattern: `;`}, {Name: "Rest", Pattern: `(?s:.)`}},
+	}
+	inputs := []string{"ab + 12 - c", "a b c", "x  y+1", "", "é;z", "+-+", "aaa bbb"}
+	for ci, rules := range cases {
+		key := fmt.Sprintf("simple%d", ci)
+		if !c.Want(key) {
+			continue
+		}
+		c.Begin(key, fmt.Sprintf("NewSimple %v", rules))
+		c.Eval(1)
+		var def *lexer.StatefulDefinition
+		var err error
+		if p, pv, _ := mon.Guard(func() { def, err = lexer.NewSimple(rules) }); p {
+			c.Violation("", key, fmt.Sprintf("NewSimple panicked: %s | rules %v", pv, rules), nil)
+			c.End(key)
+			continue
+		}
+		if err != nil {
+			c.Feature("simple_definitions_rejected")
+			c.End(key)
+			continue
+		}
+		for _, how := range []string{"definition", "def.Rules()"} {
+			var b []byte
+			if how == "definition" {
+				b, err = json.Marshal(def)
+			} else {
+				b, err = json.Marshal(def.Rules())
+			}
+			if err != nil {
+				c.Violation("", key, fmt.Sprintf("json.Marshal(%s) of a NewSimple definition failed: %v", how, err), nil)
+				continue
+			}
+			d2, err := c16Roundtrip(b)
+			if err != nil {
+				c.Violation("", key, fmt.Sprintf("JSON of a NewSimple definition (%s) does not build: %v | json: %s", how, err, trunc(string(b), 300)), nil)
+				continue
+			}
+			if !reflect.DeepEqual(def.Symbols(), d2.Symbols()) {
+				c.Violation("", key, fmt.Sprintf("symbol table of a NewSimple definition differs after the %s round trip: %v vs %v | rules %v", how, def.Symbols(), d2.Symbols(), rules), map[string]interface{}{"json": string(b)})
+				continue
+			}
+			for _, in := range inputs {
+				la, _ := def.LexString("s", in)
+				lb, _ := d2.LexString("s", in)
+				a, b2 := lexAll(la, symNames(def), len(in)+2), lexAll(lb, symNames(d2), len(in)+2)
+				if d := c16Same(a, b2); d != "" {
+					c.Violation("", key, fmt.Sprintf("NewSimple definition and its %s round trip lex %q differently: %s | rules %v", how, in, d, rules), nil)
+					break
+				}
+			}
+			c.Feature("simple_definitions_round_tripped")
+		}
+		c.Nontrivial(fmt.Sprintf("simple:%v", rules))
+		c.End(key)
+	}
+}
+
 func c16Child(c *mon.Child) {
+	if c.Batch == 0 {
+		c16Simple(c)
+	}
 	nMaps := c.N(200, 2500)
 	nInputs := c.N(60, 200)
 	for mi := 0; mi < nMaps; mi++ {
